@@ -145,7 +145,7 @@ Definition check_c12 (ops : list c12op) : list N :=
 (* ---------- C13 ---------- *)
 Definition hstep_of (y : c13step) : hstep :=
   match y with
-  | YPub _ _ _ => HPub | YW i _ _ _ => HW i | YR i _ => HR i | YT _ => HT | YCrash _ _ _ => HCrash
+  | YPub _ _ _ => HPub | YW i _ _ _ => HW i | YR _ o => HR o | YT _ => HT | YCrash _ _ _ => HCrash
   | YRewind sp _ _ _ => HRewind sp
   | YWF i _ _ => HWFail i
   end.
